@@ -1,6 +1,7 @@
 // Package items renders correspondence cases in the line protocol understood by
 // coq/Extract/driver.ml (and convertible to a Coq cases file by the check driver):
-//   <component> <item>*     item ::= n:<hex> | b:<hex> | [ item* ]
+//
+//	<component> <item>*     item ::= n:<hex> | b:<hex> | [ item* ]
 package items
 
 import (
